@@ -71,6 +71,8 @@ def run(tier):
     rnd = random.Random(common.seed())
     common.build("asan")
     wd = common.workdir("c17")
+    r = common.tlc("MC_Multipart", "MC_MultipartBad.cfg", workers=4, timeout=600)
+    ck.require_ok("MultipartImpl/MC_MultipartBad.cfg", r); ck.add_tlc("MultipartImpl/MC_MultipartBad.cfg (ValidImpliesGood, FinalState with a corrupted part)", r)
     ch = [b""] + [corpus.text(rnd, n) for n in (30, 60, 25, 80, 45)]
     B = ref.build_file(ch, comp_type=0, hash_type=1, chunk_hash_type=3)[0]
     chb = [b""] + [corpus.rand(rnd, n) for n in (20000, 300, 40010)]
